@@ -8,7 +8,7 @@
 (* complete negation.  Product: exhaustive automaton x automaton of the    *)
 (* whole pattern x the obligation monitor of GlobQuery.                    *)
 (***************************************************************************)
-EXTENDS KnownFindings, VarianceImpl, GlobQuery, Json, IOUtils
+EXTENDS KnownFindings, GlobRules, VarianceImpl, GlobQuery, Json, IOUtils
 
 Obs == ndJsonDeserialize(IOEnv.OBS)
 
@@ -27,7 +27,7 @@ Read ==
        /\ qe' = o.neg.exh.delta[qe][j]
        /\ qa' = o.dfa.delta[qa][j]
        /\ can' = CanonStep(can, c, 1)
-       /\ ob' = ExhStep(ob, can, o.neg.exh.acc[qe], c)
+       /\ ob' = ExhStep2(ob, can, o.neg.exh.acc[qe], o.dfa.acc[qa], c)
        /\ path' = Append(path, c)
   /\ UNCHANGED <<case, st>>
 Next == Load \/ Read
@@ -39,6 +39,10 @@ TreeOf(o) == LET p == Parse(o.e) IN IF p.st = "ok" THEN Strip(p.toks) ELSE <<>>
 Sig == LET T == TreeOf(Obs[case]) IN
        [endsep |-> LastLeafIsSep(T), treebranch |-> TreeThenBranch(T), inrep |-> TreeInRep(T),
         treelastalt |-> TreeLastInAltBranch(T), branchinrep |-> BranchInUnboundedRep(T), repbranch |-> RepThenBranch(T),
+        (* an optional repetition between two boundaries (KF32) *)
+        skipadj |-> (T # <<>> /\ Adjacent(ExpandZ(T), "B") /\ ~Adjacent(Expand(T, {1}), "B")),
+        (* a tree wildcard inside a branch: compiled through a combinator it is nested two levels deep (KF06) *)
+        treenested1 |-> TreeNested(T, 1),
         (* the verdict the pattern reports: only `always` patterns belong in the exhaustive program *)
         exh |-> Obs[case].q.exh,
         implsame |-> (T # <<>> /\ ExhImpl(T) = Obs[case].q.exh)]
@@ -47,6 +51,10 @@ Dis(what) == Report([t |-> "DISAGREE", prop |-> "C03", what |-> what, id |-> Obs
 NegationSound ==
   (st = "run" /\ CanonNow(can)) =>
      /\ (ob.ob => Obs[case].dfa.acc[qa]) \/ Dis("unmatched_descendant")
+     /\ (ob.obR => Obs[case].dfa.acc[qa]) \/ Dis("unmatched_descendant_of_root_path")
      /\ (ob.obE => Obs[case].dfa.acc[qa]) \/ Dis("unmatched_descendant_of_empty_path")
+     (* the directory itself is matched by the program that `not` compiled (through a combinator) but not by *)
+     (* the pattern's own program: the two programs of one expression differ (C07's subject)                 *)
+     /\ (ob.obX => Obs[case].dfa.acc[qa]) \/ Dis("unmatched_descendant_of_path_matched_only_by_the_combinator_program")
 Entered == (st = "run" /\ path = <<>>) => Report([t |-> "IN", id |-> Obs[case].id])
 =============================================================================
